@@ -1,9 +1,19 @@
 (** Lemmas about the session store model (C19): refinement to the simple map. *)
-From Coq Require Import Lia.
+From Coq Require Import Lia ZifyBool.
 From Verif.Base Require Import Prelude.
 From Verif.Spec Require Import C19.
 From Verif.Model Require Import Sessions.
+From Verif.Gen Require SessionsGen.
 Open Scope Z_scope.
+
+(** The expiry test of the source (regenerated) is the specification's:
+    idle time STRICTLY greater than the limit, for ALL integers. *)
+Lemma expired_src_is_spec : forall now last created max_age,
+  SessionsGen.expired_src now last created max_age = (now - last >? max_age).
+Proof. intros. unfold SessionsGen.expired_src. lia. Qed.
+
+Lemma expired_m_spec : forall now age r, expired_m now age r = expired now age r.
+Proof. intros. unfold expired_m, expired. apply expired_src_is_spec. Qed.
 
 Section Proofs.
   Variable sid : Type.
@@ -260,10 +270,15 @@ Section Proofs.
     - (* cleanup *) split.
       + split.
         * intro k. unfold Sessions.cleanup, a_expire.
+          rewrite (filter_ext _ (fun kv => negb (expired now max_age (snd kv))))
+            by (intros; rewrite expired_m_spec; reflexivity).
           rewrite (lookup_filter_val (fun r => negb (expired now max_age r))); [|assumption].
           destruct (lookup k (store sid st)) as [r0|]; [|reflexivity].
           destruct (expired now max_age r0); reflexivity.
-        * eexists. split; [reflexivity|]. apply (counts_filter (expired now max_age)). assumption.
+        * eexists. split; [reflexivity|]. unfold Sessions.expired_entries.
+          rewrite (filter_ext _ (fun kv => expired now max_age (snd kv)))
+            by (intros; rewrite expired_m_spec; reflexivity).
+          apply (counts_filter (expired now max_age)). assumption.
       + split; simpl; [apply nodup_filter; assumption|].
         intros k H. apply B. eapply keys_filter_in; eauto.
     - (* list *) split; [|exact I].
